@@ -371,8 +371,14 @@ impl Module {
                     };
                     let slot_count = array_count * slice_cost;
 
+                    // Object types that are not resources such as RayDesc do not have a register class and are not bound
+                    let register_type = match unmodified_tyl {
+                        TypeLayer::Object(ot) => ot.get_register_type(),
+                        _ => None,
+                    };
+
                     assert_eq!(decl.api_slot, None);
-                    if unmodified_tyl.is_object() {
+                    if let Some(register_type) = register_type {
                         if params.support_buffer_address
                             && module.type_registry.is_buffer_address(decl.type_id)
                         {
@@ -413,11 +419,7 @@ impl Module {
                                 set,
                                 location: ApiLocation::Index(index),
                                 slot_type: if params.require_slot_type {
-                                    Some(if let TypeLayer::Object(ot) = unmodified_tyl {
-                                        ot.get_register_type()
-                                    } else {
-                                        panic!("Non-object type has a global resource binding");
-                                    })
+                                    Some(register_type)
                                 } else {
                                     None
                                 },
